@@ -17,27 +17,17 @@ open Sentinel.LA Sentinel.CB
 
 /-! ## 1. the code-shaped counters are the completions of the last `n` buckets -/
 
-/-- **refines_abstract.**  From `LoadRules` at any clock reading `now0 > 0`, for any list of (valid:
-    `StatIntervalMs > 0`) rules and any history whose clock never goes backwards, the machine over the
-    breakers' leap arrays produces exactly the decisions and listener callbacks of the machine that keeps,
-    per breaker, only the list of completions since the last clear. -/
-theorem refines_abstract (rules : List (Nat × Rule)) (hv : ∀ p ∈ rules, 0 < p.2.statI) (now0 : Nat) (h0 : 0 < now0)
-    (ops : List Op) (ht : Timed now0 ops) :
-    (run laOps { now := now0, brs := rules.map fun p => Brk.new p.1 p.2 now0 } ops).2 =
-      (run histOps { now := now0, brs := rules.map fun p => Brk.newAbs p.1 p.2 } ops).2 := by
-  refine (run_rel ⟨rfl, h0, rfl, ?_⟩ ops ht).1
-  dsimp only
-  rw [List.forall₂_map_left_iff, List.forall₂_map_right_iff]
-  have : ∀ l : List (Nat × Rule), (∀ p ∈ l, 0 < p.2.statI) →
-      List.Forall₂ (fun a b : Nat × Rule => RelB now0 (Brk.new a.1 a.2 now0) (Brk.newAbs b.1 b.2)) l l := by
-    intro l
-    induction l with
-    | nil => intro _; exact List.Forall₂.nil
-    | cons p r ih =>
-      intro h
-      exact List.Forall₂.cons (new_rel p.1 p.2 now0 (h p (List.mem_cons_self ..)))
-        (ih fun q hq => h q (List.mem_cons_of_mem _ hq))
-  exact this rules hv
+/-- **refines_abstract.**  Starting from the empty rule manager at any clock reading `now0 > 0`, for any
+    history of `LoadRules` / `LoadRulesOfResource` (valid rules: `StatIntervalMs > 0`; statistics reused as
+    `BuildResourceCircuitBreaker` reuses them), clock readings that never go backwards, entries and exits:
+    the machine over the breakers' leap arrays produces exactly the decisions and listener callbacks of the
+    machine that keeps, per statistic, only the list of completions since its creation or last clear.  In
+    particular every breaker trips over its *own* statistic: the window of a stat-reusing breaker is the
+    donor's history continued, and no statistic is ever shared (`build_consumes_once`). -/
+theorem refines_abstract (now0 : Nat) (h0 : 0 < now0) (ops : List Op) (ht : Timed now0 ops)
+    (hv : ∀ o ∈ ops, ∀ r ∈ o.rules, 0 < r.statI) :
+    (run laOps { now := now0 } ops).2 = (run histOps { now := now0 } ops).2 :=
+  (run_rel ⟨rfl, h0, rfl, rfl, List.Forall₂.nil⟩ ops ht hv).1
 
 /-- what the abstract store counts: the `total`s (1 per completion) of the completions whose bucket lies
     in the window -/
@@ -342,29 +332,70 @@ theorem open_blocks_resource (s : Sys W) (id : Nat) (res : String) (b : Brk W) (
 
 /-! ## 5. the listener log -/
 
-/-- **listener_log_is_path.**  For any breakers with distinct ids and any history, replaying the
-    concatenated listener callbacks on a map `id ↦ state` that agrees with the breakers at the start never
-    meets an illegal edge (`Closed→Open`, `Open→HalfOpen`, `HalfOpen→Open`, `HalfOpen→Closed` are the only
-    edges) and ends in a map that agrees with the breakers at the end: the log is exactly the sequence of
-    state changes, each once. -/
-theorem listener_log_is_path (ops : Rule → WinOps W) (s : Sys W) (os : List Op) (m : Nat → St)
-    (nd : (s.brs.map (·.id)).Nodup) (ag : Agree m s.brs) :
-    ∃ m', replay m ((run ops s os).2.flatMap (·.evs)) = some m' ∧ Agree m' (run ops s os).1.brs := by
+/-- **listener_log_is_path.**  For any history (reloads included: kept breakers keep their identity, new
+    ones get fresh identities and start Closed), replaying the concatenated listener callbacks on a map
+    `id ↦ state` that agrees with the breakers at the start never meets an illegal edge (`Closed→Open`,
+    `Open→HalfOpen`, `HalfOpen→Open`, `HalfOpen→Closed` are the only edges) and ends in a map that agrees with
+    the breakers at the end: the log is exactly the sequence of state changes, each once. -/
+theorem listener_log_is_path (ops : Rule → WinOps W) (s : Sys W) (os : List Op) (m : Nat → St) (inv : LogInv m s) :
+    ∃ m', replay m ((run ops s os).2.flatMap (·.evs)) = some m' ∧ LogInv m' (run ops s os).1 := by
   induction os generalizing s m with
-  | nil => exact ⟨m, rfl, ag⟩
+  | nil => exact ⟨m, rfl, inv⟩
   | cons o os ih =>
-    obtain ⟨m1, hm1, ag1, hids⟩ := step_replay ops s o m nd ag
-    obtain ⟨m2, hm2, ag2⟩ := ih (step ops s o).1 m1 (by rw [hids]; exact nd) ag1
-    refine ⟨m2, ?_, ag2⟩
+    obtain ⟨m1, hm1, inv1⟩ := step_replay ops s o m inv
+    obtain ⟨m2, hm2, inv2⟩ := ih (step ops s o).1 m1 inv1
+    refine ⟨m2, ?_, inv2⟩
     simp only [run, List.flatMap_cons]
     rw [replay_append, hm1]
     exact hm2
 
-/-- from `LoadRules` (all breakers closed) the log is a legal path from Closed -/
-theorem listener_log_from_closed (ops : Rule → WinOps W) (s : Sys W) (os : List Op)
-    (nd : (s.brs.map (·.id)).Nodup) (hc : ∀ b ∈ s.brs, b.st = .closed) :
-    ∃ m', replay (fun _ => .closed) ((run ops s os).2.flatMap (·.evs)) = some m' ∧ Agree m' (run ops s os).1.brs :=
-  listener_log_is_path ops s os _ nd (fun b hb => (hc b hb).symm)
+/-- from the empty rule manager the whole log is a legal path from Closed for every breaker ever created,
+    and the final map gives the current state of every live breaker -/
+theorem listener_log_from_closed (ops : Rule → WinOps W) (now0 : Nat) (os : List Op) :
+    ∃ m', replay (fun _ => .closed) ((run ops { now := now0 } os).2.flatMap (·.evs)) = some m' ∧
+      Agree m' (run ops { now := now0 } os).1.brs := by
+  obtain ⟨m', h1, h2⟩ := listener_log_is_path ops ({ now := now0 } : Sys W) os (fun _ => .closed)
+    ⟨List.nodup_nil, (fun _ hb => by cases hb), (fun _ hb => by cases hb), fun _ _ => rfl⟩
+  exact ⟨m', h1, h2.ag⟩
+
+/-- **build_consumes_once.**  A (re)load hands every old breaker — kept as it is, or as donor of its
+    statistic — to at most one new rule: the consumed identities are pairwise distinct.  (This is the clause
+    "removed from the candidates" of `BuildResourceCircuitBreaker`; a change that lets two new breakers
+    share one sliding window breaks the correspondence with this model.) -/
+theorem build_consumes_once (rules : List Rule) (old : List (Brk W)) (nd : (old.map (·.id)).Nodup) :
+    (donorIds rules old).Nodup ∧ ∀ k ∈ donorIds rules old, k ∈ old.map (·.id) := by
+  induction rules generalizing old with
+  | nil => exact ⟨List.nodup_nil, fun _ h => by cases h⟩
+  | cons r rs ih =>
+    simp only [donorIds]
+    have step : ∀ (i : Nat) (c : Brk W), old[i]? = some c →
+        (c.id :: donorIds rs (old.eraseIdx i)).Nodup ∧ ∀ k ∈ c.id :: donorIds rs (old.eraseIdx i), k ∈ old.map (·.id) := by
+      intro i c hc
+      obtain ⟨h1, h2⟩ := ih (old.eraseIdx i) (nodup_eraseIdx _ nd i)
+      refine ⟨List.nodup_cons.mpr ⟨?_, h1⟩, ?_⟩
+      · intro hmem
+        obtain ⟨b, hb, hbe⟩ := List.mem_map.mp (h2 _ hmem)
+        exact mem_eraseIdx_ne (·.id) nd hc hb hbe
+      · intro k hk
+        rcases List.mem_cons.mp hk with rfl | hk
+        · exact List.mem_map_of_mem (getElem?_mem' hc)
+        · obtain ⟨b, hb, hbe⟩ := List.mem_map.mp (h2 _ hk)
+          exact List.mem_map.mpr ⟨b, List.mem_of_mem_eraseIdx hb, hbe⟩
+    rcases reuseIdx r old 0 none with ⟨e, j⟩
+    cases e with
+    | some i =>
+      dsimp only
+      cases hc : old[i]? with
+      | none => exact ih old nd
+      | some c => exact step i c hc
+    | none =>
+      cases j with
+      | none => exact ih old nd
+      | some j =>
+        dsimp only
+        cases hc : old[j]? with
+        | none => exact ih old nd
+        | some c => exact step j c hc
 
 end system
 
@@ -510,6 +541,18 @@ theorem probe_counter_invariant (ops : Rule → WinOps W) (s : Sys W) (os : List
       cases hf : s.live.find? (fun x => decide (x.id = id)) with
       | none => exact h
       | some e => exact completeAll_probeOk ops e.res s.now _ err s.brs h
+    | load rules =>
+      intro b hb
+      rcases build_mem ops s.now rules s.brs s.next b hb with hm | ⟨_, _, _, hz⟩
+      · exact h b hm
+      · exact Or.inl hz
+    | loadRes res rules =>
+      intro b hb
+      rcases List.mem_append.mp hb with hm | hm
+      · exact h b (List.mem_filter.mp hm).1
+      · rcases build_mem ops s.now rules _ s.next b hm with hm' | ⟨_, _, _, hz⟩
+        · exact h b (List.mem_filter.mp hm').1
+        · exact Or.inl hz
 
 end probes
 
@@ -617,7 +660,7 @@ theorem completeAll_keeps_open (ops : Rule → WinOps W) (res' : String) (now rt
 /-- one op before the deadline: the breaker stays open with the same deadline, and an entry to its
     resource is rejected -/
 theorem step_keeps_open (ops : Rule → WinOps W) (s : Sys W) (o : Op) (k : Nat) (res : String) (D : Nat)
-    (h : OpenUntil k res D s.brs) (hnow : s.now < D) :
+    (h : OpenUntil k res D s.brs) (hnow : s.now < D) (hno : ∀ rs, o ≠ .load rs ∧ ∀ x, o ≠ .loadRes x rs) :
     OpenUntil k res D (step ops s o).1.brs ∧ (∀ id n, o = .entry id res n → ∃ j, (step ops s o).2.dec = some (some j)) := by
   cases o with
   | clock t => exact ⟨h, fun id n hid => by cases hid⟩
@@ -646,34 +689,34 @@ theorem step_keeps_open (ops : Rule → WinOps W) (s : Sys W) (o : Op) (k : Nat)
     cases hf : s.live.find? (fun x => decide (x.id = id)) with
     | none => exact h
     | some e => exact completeAll_keeps_open ops e.res s.now _ err s.brs k res D h
-
-theorem step_now (ops : Rule → WinOps W) (s : Sys W) (o : Op) :
-    (step ops s o).1.now = match o with | .clock t => t | _ => s.now := by
-  cases o with
-  | clock t => rfl
-  | entry id res batch => simp only [step, doEntry]; split <;> rfl
-  | exit id err => simp only [step, doExit]; split <;> rfl
+  | load rules => exact absurd rfl (hno rules).1
+  | loadRes x rules => exact absurd rfl ((hno rules).2 x)
 
 /-- **open_rejects_until (history form).**  Once a breaker of a resource is open with deadline `D`, then
-    along *any* continuation whose clock readings stay below `D` — requests to this or other resources,
-    completions of stragglers with or without errors, probes and rollbacks of other breakers — every request
-    to the resource is rejected with a circuit-breaking block, and the breaker is still open with the same
-    deadline at the end. -/
+    along *any* continuation without rule reloads whose clock readings stay below `D` — requests to this or
+    other resources, completions of stragglers with or without errors, probes and rollbacks of other
+    breakers — every request to the resource is rejected with a circuit-breaking block, and the breaker is
+    still open with the same deadline at the end.  (A reload may of course replace the breaker.) -/
 theorem open_rejects_until_history (ops : Rule → WinOps W) (s : Sys W) (os : List Op) (k : Nat) (res : String) (D : Nat)
-    (h : OpenUntil k res D s.brs) (hnow : s.now < D) (hclk : ∀ t, Op.clock t ∈ os → t < D) :
+    (h : OpenUntil k res D s.brs) (hnow : s.now < D) (hclk : ∀ t, Op.clock t ∈ os → t < D)
+    (hno : ∀ o ∈ os, ∀ rs, o ≠ .load rs ∧ ∀ x, o ≠ .loadRes x rs) :
     OpenUntil k res D (run ops s os).1.brs ∧
       List.Forall₂ (fun o out => ∀ id n, o = Op.entry id res n → ∃ j, out.dec = some (some j)) os (run ops s os).2 := by
   induction os generalizing s with
   | nil => exact ⟨h, List.Forall₂.nil⟩
   | cons o os ih =>
-    obtain ⟨h1, h2⟩ := step_keeps_open ops s o k res D h hnow
+    have hno' := hno o (List.mem_cons_self ..)
+    obtain ⟨h1, h2⟩ := step_keeps_open ops s o k res D h hnow hno'
     have hnow' : (step ops s o).1.now < D := by
       rw [step_now]
       cases o with
       | clock t => exact hclk t (List.mem_cons_self ..)
       | entry id r n => exact hnow
       | exit id e => exact hnow
+      | load rules => exact hnow
+      | loadRes x rules => exact hnow
     obtain ⟨i1, i2⟩ := ih (step ops s o).1 h1 hnow' (fun t ht => hclk t (List.mem_cons_of_mem _ ht))
+      (fun o ho => hno o (List.mem_cons_of_mem _ ho))
     simp only [run]
     exact ⟨i1, List.Forall₂.cons h2 i2⟩
 
